@@ -102,6 +102,15 @@ def run(ctx: Ctx) -> RuleResult:
                     used = {x.id for x in ast.walk(c.elt) if isinstance(x, ast.Name)}
                     items_ok = len(tn) == 2 and set(tn) <= used
                     comp = c
+                    # ... and the only filter is membership of the name in the `unhashable` tuple (k3 accounts for those): a filter
+                    # on the value (`if v`) makes `opt=False` and "not passed" -- whose default may be True -- share a key
+                    flt_ok = all(isinstance(t_, ast.Compare) and len(t_.ops) == 1 and isinstance(t_.ops[0], ast.NotIn)
+                                 and isinstance(t_.left, ast.Name) and t_.left.id == tn[0] for t_ in g.ifs) if len(tn) == 2 else False
+                    if items_ok and not flt_ok:
+                        res.ob(site, 'k1: options are left out of the key only by name (unhashable ones)', False)
+                        res.finding(f, dstmt, 'the option part of the cache key filters options by something other than their name (%s): two '
+                                    'configurations that differ in such an option share one cache file' % [norm(t_) for t_ in g.ifs],
+                                    construct='key-filter')
     res.ob(site, 'k1: every passed option contributes its name and its value', items_ok)
     if not items_ok:
         res.finding(f, dstmt, 'the option part of the cache key does not include both name and value of every passed option',
@@ -440,6 +449,52 @@ def run(ctx: Ctx) -> RuleResult:
     if not ok:
         res.finding(f, wif or f.node, 'header encoding differs between writer %s and reader %s' % (enc_w, enc_r), construct='w:encoding')
     _verify_used(ctx, res)
+    # k4: objects that reach the key through str()/repr() (import_paths may hold FromPackageLoader instances) print every field
+    for cq in ('lark.load_grammar:FromPackageLoader',):
+        k_ = repo.cls(cq)
+        init_ = k_.methods.get('__init__')
+        rp = k_.methods.get('__repr__')
+        if init_ is None or rp is None:
+            raise AnalysisError('R-CACHE: %s.__init__/__repr__ not found (anchor vanished)' % cq)
+        sn_ = init_.self_name()
+        flds = sorted({t.attr for a in init_.body_nodes() if isinstance(a, ast.Assign) for t in a.targets
+                       if isinstance(t, ast.Attribute) and isinstance(t.value, ast.Name) and t.value.id == sn_})
+        rsn = rp.self_name()
+        shown = {x.attr for x in rp.body_nodes() if isinstance(x, ast.Attribute) and isinstance(x.value, ast.Name) and x.value.id == rsn}
+        ok = set(flds) <= shown
+        res.ob('%s %s' % (rp.loc(), rp.qual), 'k4: repr() of a loader that can sit in import_paths shows all its fields %s' % flds, ok)
+        if not ok:
+            res.finding(rp, rp.node, '%s.__repr__ leaves out %s: the cache key sees import_paths only through repr(), so two loaders that differ '
+                        'there share one cache file' % (k_.name, sorted(set(flds) - shown)), construct='k4:repr:%s' % k_.name)
+    # w: the cache file is opened through FS.open, which hands the mode on unchanged ('wb' truncates: a writer that dies half-way
+    # never leaves the new header in front of the old body)
+    fso = repo.func('lark.utils:FS.open')
+    mparam = next((p_ for p_ in fso.positional_names() if p_ == 'mode'), None)
+    opens = [c for c in fso.body_nodes() if isinstance(c, ast.Call) and norm(c.func) in ('open', 'atomicwrites.atomic_write')]
+    ok = mparam is not None and bool(opens)
+    for c in opens:
+        marg = None
+        if norm(c.func) == 'open' and len(c.args) >= 2:
+            marg = c.args[1]
+        for kw in c.keywords:
+            if kw.arg == 'mode':
+                marg = kw.value
+        if marg is None or norm(marg) != mparam:
+            ok = False
+    res.ob('%s %s' % (fso.loc(), fso.qual), 'w: FS.open passes the caller\'s mode through unchanged', ok)
+    if not ok:
+        res.finding(fso, fso.node, 'FS.open opens the file with a mode other than the one it was given: the cache writer asks for "wb" '
+                    '(truncate); anything else can leave a new header in front of an old body', construct='w:fs-mode')
+    # r: the path of the cache file is decided once, before the load attempt; the failure path does not redirect or drop it
+    if fn_var is not None and the_try is not None:
+        inside = {id(x) for x in ast.walk(the_try)}
+        late = [n_ for n_ in f.body_nodes() if isinstance(n_, ast.Assign) and any(isinstance(t, ast.Name) and t.id == fn_var for t in n_.targets)
+                and (id(n_) in inside or n_.lineno > the_try.end_lineno)]
+        ok = not late
+        res.ob(site, 'r: the cache path `%s` is not reassigned by or after the load attempt' % fn_var, ok)
+        for n_ in late:
+            res.finding(f, n_, 'the cache path is changed after the load attempt (%s): a file that could not be loaded is then never replaced '
+                        'by a valid one (every later start fails to load it again and recompiles)' % norm(n_), construct='r:path-reassigned')
     return res
 
 
